@@ -102,6 +102,16 @@ def cases(tier):
                 yield dict(withj=False, fam=list(fam), entered=ent, data=data, yf=1.0, **flags)
             if len(fam) >= 1:
                 yield dict(withj=False, fam=list(fam), entered=[f for f in fam if f != "frac" or "abc" in fam] + ["a"], data="ok", yf=0.5, **flags)
+    # compartments with a framework default of 0 and no databook entry ("zero defaults"); alternative definition of a characteristic under the same name
+    for zd, entered in ((["c"], ["abc", "a"]), (["b", "c"], ["abc"]), (["c"], ["abc", "ab"]), (["a"], ["abc", "bc", "b"]), (["b"], ["abc", "a"])):
+        fam = [q for q in entered if q not in ("a", "b", "c")]
+        for data in ("ok", "neg1"):
+            yield dict(withj=False, fam=fam, entered=entered, data=data, yf=1.0, zero_default=zd)
+    for fam in fams:
+        if "ab" in fam:
+            for entered in (["a", "b", "c"] + [f for f in fam if f != "frac" or "abc" in fam], [f for f in fam if f != "frac" or "abc" in fam] + ["a"]):
+                for data in ("ok", "off1"):
+                    yield dict(withj=False, fam=list(fam), entered=entered, data=data, yf=1.0, alt_def=True)
     # other routes to an integrated model: built model pickled / deep-copied and the copy integrated; every quantity read before integration
     for fam in fams:
         for via in ("pickle", "deepcopy", "read_first"):
@@ -163,6 +173,8 @@ def make_spec(case):
         cascades={"main": [("everyone", "a,b,c")]},
     )
     for c in spec["comps"]:
+        if c["name"] in case.get("zero_default", []):
+            c["default"] = 0  # no databook entry: the framework says the compartment starts empty
         if c["name"] in vals:
             c["init"] = vals[c["name"]] / (yf if c["name"] == first else 1.0)
             if c["name"] == first and yf != 1.0:
@@ -238,6 +250,21 @@ def make_spec(case):
 
 
 def run_case(case):
+    if case.get("alt_def"):
+        # two frameworks with the same code names but different definitions of a characteristic, built one after the other in this process:
+        # first the usual definition (ab = a + b), then the alternative one (ab = a + c) - the second must be initialised by ITS definition
+        twin = {k: v for k, v in case.items() if k != "alt_def"}
+        _run_case(twin)
+        old = CH["ab"]
+        CH["ab"] = (["a", "c"], None)
+        try:
+            return _run_case(twin)
+        finally:
+            CH["ab"] = old
+    return _run_case(case)
+
+
+def _run_case(case):
     spec, vals = make_spec(case)
     vs = []
     j0 = 10.0 if case["withj"] else 0.0
@@ -254,6 +281,9 @@ def run_case(case):
         if v < 0 or not np.isfinite(v):
             vs.append(V("negative-initial-compartment", f"{case}: compartment {n} starts at {v!r}", None))
     tol = 1e-6 * (1 + 1e-6)
+    for n_ in case.get("zero_default", []):
+        if abs(x0[n_]) > tol:
+            vs.append(V("zero-default-not-honoured", f"{case}: compartment {n_} has the framework default 0 (no databook entry) but the run starts with {x0[n_]!r}", None))
     for q, val in vals.items():
         mem = members(q, None)
         got = sum(x0[mm] for mm in mem)
